@@ -99,3 +99,16 @@ Definition check_strip_read (T : tables) (M : meta) (c : string * value * list s
   | Some v' => Z.eqb (hval v') expected
   | None => false
   end.
+
+(* whole stores: (objects in store iteration order, falsy literals, expected hash of the SDK's document) *)
+From Basyx Require Import model.JsonStore.
+Fixpoint values_eqb (a b : list value) : bool :=
+  match a, b with [], [] => true | x :: r, y :: r' => value_eqb x y && values_eqb r r' | _, _ => false end.
+Definition check_store (T : tables) (M : meta) (c : list value * list string * Z) : bool :=
+  let '(objs, falsy, expected) := c in
+  Z.eqb (hdoc 0 (write_store T (lt_of falsy) objs)) expected &&
+  match read_store T M (write_store T (lt_of falsy) objs) with
+  | inl vs => values_eqb vs (part "AssetAdministrationShell" objs ++ part "Submodel" objs ++
+                             part "ConceptDescription" objs)
+  | inr _ => false
+  end.
